@@ -119,3 +119,6 @@ class Modules:
 			module = self.__modules[module_path]
 			self.__loader.unload(module.module_path)
 			del self.__modules[module_path]
+			# このモジュールに依存するモジュールはシンボルの参照先を失うため、合わせてアンロード(次回のロード時に再構築)
+			for dependent in [in_module for in_module in self.loaded() if module_path in [import_node.import_path.tokens for import_node in in_module.entrypoint.imports]]:
+				self.unload(dependent.path)
